@@ -5,7 +5,10 @@ import GivaroModel.Model.Array0
 import GivaroModel.Model.FreeList
 import GivaroModel.Model.Leak
 import GivaroModel.Model.RefPtr
+import GivaroModel.Model.RefPtrArray0
 import GivaroModel.Spec.Array0Spec
+import GivaroModel.Model.Array0ToV
+import GivaroModel.Model.Array0Pool
 -- @driver-mode array Driver.Array.arrayLine
 namespace Driver.Array
 open Driver
@@ -31,6 +34,7 @@ def parseHistOp (T : String) (tok : String) : Option (Array0.Op Int × Array0Spe
   | some ("R", [h, s]) => some (.resize h s, .resize h s)
   | some ("V", [h, s]) => some (.reserve h s, .reserve h s)
   | some ("P", [h, v]) => some (.pushBack h (elt T v), .pushBack h (elt T v))
+  | some ("Q", [h, i]) => some (.pushBackSelf h i, .pushBackSelf h i)
   | some ("W", [h, i, v]) => some (.write h i (elt T v), .write h i (elt T v))
   | some ("Y", [h, g]) => some (.copy h g, .copy h g)
   | some ("L", [h, g]) => some (.logcopy h g, .share h g)
@@ -39,18 +43,43 @@ def parseHistOp (T : String) (tok : String) : Option (Array0.Op Int × Array0Spe
 
 def showCells (l : List Int) : String := if l.isEmpty then "-" else String.intercalate "," (l.map hexInt)
 
-/-- what the harness prints for handle `h` of a model state -/
-def showHandle (s : Array0.State Int) (h : Nat) : String :=
+/-- what the harness prints for handle `h` of the composed model (Array0 over the pool): size, capacity, counter, lowest
+    aliasing handle, contents, and the class indices found in the headers of the data block and of the counter block -/
+def showHandle (p : Array0Pool.PState Int) (h : Nat) : String :=
+  let s := p.arr
   let H := s.hs h
   let cnt := match H.cnt with | none => "-" | some c => hexInt (s.cval c)
   let sh := if H.psz = 0 then "-" else
     match (List.range (h + 1)).find? (fun g => (s.hs g).psz != 0 && (s.hs g).d == H.d) with
     | some g => hexNat g | none => "?"
-  s!"{hexNat H.size}.{hexNat H.psz}.{cnt}.{sh}.{showCells (Array0.contents s h)}"
+  let cls (slot : Option Nat) : String := match slot with
+    | none => "-"
+    | some k => match p.pool.slot k with | some pb => hexNat (p.pool.pool.idx pb) | none => "?"
+  let kd := cls (if H.psz = 0 then none else H.d.map Array0Pool.keyD)
+  let kc := cls (if H.psz = 0 then none else H.cnt.map Array0Pool.keyC)
+  s!"{hexNat H.size}.{hexNat H.psz}.{cnt}.{sh}.{showCells (Array0.contents s h)}.{kd}.{kc}"
 
-def showState (s : Array0.State Int) : String :=
-  if s.fault then "X:model-fault" else
-  hexNat (Array0.leaked s) ++ ":" ++ String.intercalate "|" ((List.range s.n).map (showHandle s))
+def showState (p : Array0Pool.PState Int) : String :=
+  if p.arr.fault then "X:model-fault" else
+  hexNat (Array0.leaked p.arr) ++ ":" ++ String.intercalate "|" ((List.range p.arr.n).map (showHandle p))
+
+/-- the same observations computed from the value-semantics machine alone (no counters, no capacity field, no pool):
+    capacity = retained cells of the group, counter = members of the group -/
+def showV (a : Array0Spec.VState Int) : String :=
+  "0:" ++ String.intercalate "|" ((List.range a.n).map (fun h =>
+    let H := a.hs h
+    match H.grp with
+    | none => "0.0.-.-.-"
+    | some g =>
+      let sh := match (List.range (h + 1)).find? (fun k => (a.hs k).grp == some g) with | some k => hexNat k | none => "?"
+      s!"{hexNat H.size}.{hexNat (a.cells g).length}.{hexNat (Array0Spec.vmembers a g)}.{sh}.{showCells (Array0Spec.vvalue a h)}"))
+
+/-- an observation without the two class-index fields of each handle -/
+def dropClasses (o : String) : String :=
+  match o.splitOn ":" with
+  | [leak, rest] =>
+    leak ++ ":" ++ String.intercalate "|" ((rest.splitOn "|").map (fun t => String.intercalate "." ((t.splitOn ".").take 5)))
+  | _ => o
 
 structure HObs where
   size : Nat
@@ -60,7 +89,7 @@ structure HObs where
 
 def parseHandleObs (t : String) : Option HObs :=
   match t.splitOn "." with
-  | [sz, _psz, cnt, sh, cells] => do
+  | [sz, _psz, cnt, sh, cells, _kd, _kc] => do
     let size ← parseHexNat sz
     let cnt ← if cnt == "-" then some none else (parseHexInt cnt).map some
     let share ← if sh == "-" then some none else (parseHexNat sh).map some
@@ -95,17 +124,38 @@ def specStep (a : Array0Spec.AState Int) (nh : Nat) (tok : String) : Bool :=
               else (o.share == o'.share) == (Array0Spec.grpOf a h == Array0Spec.grpOf a g)))
   | _ => false
 
-partial def histLoop (nh : Nat) (ops : List (Array0.Op Int × Array0Spec.AOp Int)) (obs : List String)
-    (s : Array0.State Int) (a : Array0Spec.AState Int) (k : Nat) : Option (Nat × Bool × Bool × String) :=
+/-- cells of handle `h` in an observation token -/
+def obsCells (tok : String) (h : Nat) : Option (List Int) :=
+  match tok.splitOn ":" with
+  | [_, rest] => ((rest.splitOn "|")[h]?).bind parseHandleObs |>.map (·.cells)
+  | _ => none
+
+/-- `push_back(A[i])` appends whatever cell `i` was *observed* to hold just before (also when the property leaves the
+    value of that cell open, e.g. after `allocate`) -/
+def selfPushOk (mo : Array0.Op Int) (prev o : String) : Bool :=
+  match mo with
+  | .pushBackSelf h i =>
+    let before := if prev.isEmpty then some [] else obsCells prev h
+    match before, obsCells o h with
+    | some b, some a => if i < b.length then a == b ++ [b.getD i 0] else a == b
+    | _, _ => false
+  | _ => true
+
+partial def histLoop (w nh : Nat) (ops : List (Array0.Op Int × Array0Spec.AOp Int)) (obs : List String)
+    (p : Array0Pool.PState Int) (a : Array0Spec.AState Int) (v : Array0Spec.VState Int) (prev : String) (k : Nat) :
+    Option (Nat × Bool × Bool × String) :=
   -- returns the first step at which model or specification disagree with the implementation: (step, specOk, modelOk, model)
   match ops, obs with
   | (mo, ao) :: ops', o :: obs' =>
-    let s' := Array0.step s mo
+    let p' := Array0Pool.pstep w p mo
     let a' := Array0Spec.astep a ao
-    let m := showState s'
-    let specOk := specStep a' nh o
-    let modelOk := m == o
-    if specOk && modelOk then histLoop nh ops' obs' s' a' (k + 1) else some (k, specOk, modelOk, m)
+    let v' := Array0Spec.vstep v (Array0.toV mo)
+    let m := showState p'
+    let specOk := specStep a' nh o && selfPushOk mo prev o
+    -- the composed model predicts the whole observation; the value-semantics machine everything but the class indices
+    let modelOk := m == o && showV v' == dropClasses o
+    if specOk && modelOk then histLoop w nh ops' obs' p' a' v' o (k + 1)
+    else some (k, specOk, modelOk, if m == o then "vspec=" ++ showV v' else m)
   | [], [o] => if o == "end.0.0" then none else some (k, false, false, "end.0.0")
   | _, _ => some (k, false, false, "<observation missing>")
 
@@ -114,7 +164,8 @@ def histLine (line : String) (args res : List String) : String :=
   | T :: nhs :: opToks =>
     match parseHexNat nhs, opToks.mapM (parseHistOp T) with
     | some nh, some ops =>
-      match histLoop nh ops res (Array0.init Int nh) (Array0Spec.ainit Int nh) 0 with
+      let w := if T == "Z" then 16 else 4               -- sizeof(Givaro::Integer) = sizeof(mpz_t), sizeof(int)
+      match histLoop w nh ops res (Array0Pool.pinit Int nh) (Array0Spec.ainit Int nh) (Array0Spec.vinit Int nh) "" 0 with
       | none => "OK"
       | some (k, specOk, modelOk, m) =>
         let kind := if !specOk && !modelOk then "BOTH" else if !specOk then "SPEC" else "MODEL"
@@ -265,23 +316,25 @@ def rpLine (line : String) (args res : List String) : String :=
   match args.mapM parseRpOp with
   | none => "BAD args | " ++ line
   | some ops =>
-    let ids := ops.filterMap (fun o => match o with | .new _ v => some v | _ => none)
-    let rec go (ops : List RefPtr.Op) (obs : List String) (s : RefPtr.St) (k : Nat) : Option (Nat × Bool × String) :=
+    let showRp (r : RefPtr.St) : String := hexNat (RefPtr.liveCount r) ++ ":" ++
+      String.intercalate "," ((List.range 3).map (fun j => match r.slot j with | none => "-" | some o => hexNat (r.val o)))
+    let rec go (ops : List RefPtr.Op) (obs : List String) (s : RefPtr.St) (e : Array0.State Nat) (k : Nat) : Option (Nat × Bool × String) :=
       match ops, obs with
       | [], [o] => if o == "end.0" then none else some (k, false, "end.0")
       | op :: ops', o :: obs' =>
         let s' := RefPtr.step s op
-        let m := hexNat (RefPtr.liveCount s' ids) ++ ":" ++
-          String.intercalate "," ((List.range 3).map (fun j => match s'.slot j with | none => "-" | some v => hexNat v))
+        let e' := Array0.embed e op            -- the same history on one-cell Array0 handles
+        let m := showRp s'
+        let m2 := if e'.fault then "X:model-fault" else showRp (Array0.proj e')
         -- specification: the objects alive are exactly the objects some slot points to
         let specOk := match o.splitOn ":" with
           | [lv, sl] =>
             let ptrs := (sl.splitOn ",").filter (· != "-")
             parseHexNat lv == some ptrs.eraseDups.length && ptrs.all (fun p => p != "-1")
           | _ => false
-        if specOk && m == o then go ops' obs' s' (k + 1) else some (k, specOk, m)
+        if specOk && m == o && m2 == o then go ops' obs' s' e' (k + 1) else some (k, specOk, if m == o then "array0=" ++ m2 else m)
       | _, _ => some (k, false, "<observation missing>")
-    match go ops res RefPtr.St.init 0 with
+    match go ops res RefPtr.St.init (Array0.init Nat 3) 0 with
     | none => "OK"
     | some (k, specOk, m) =>
       let kind := if !specOk && m == (res.getD k "") then "SPEC" else if !specOk then "BOTH" else "MODEL"
